@@ -364,7 +364,7 @@ def h_history_spec(cx, layout, warm):
 
 
 HARNESSES = dict(history_spec=h_history_spec, relabel=h_relabel, shift_lemma=h_shift_lemma, rename=h_rename, affine=h_affine, history=h_history, positive=h_positive,
-                 derive_after=h_derive_after, fft_lemma=c02.h_fft_lemma)
+                 derive_after=h_derive_after, fft_lemma=c02.h_fft_lemma, fft_exec=c02.h_fft_exec, gamma_fft=c02.h_gamma_level)
 
 
 def jobs(tier, seed):
@@ -395,6 +395,10 @@ def jobs(tier, seed):
     for n, gap in ((5, 1), (6, 2), (7, 5)):
         add('shift_lemma', n=n, gap=gap)
     add('fft_lemma')
+    # 'the same numbers with and without the FFT path': the FFT branch executed on the correlation-theorem model (see C02 fft_exec)
+    for idx, wm, gap in (([1, 2, 3, 4, 5, 6, 7, 8], 4, 1), ([1, 2, 3, 4, 5], 8, 1), ([1, 2, 3], 7, 1), ([2, 4, 8, 10, 14], 4, 2), ([3, 6, 9, 12, 15, 18, 21], 9, 3)):
+        add('fft_exec', idx=idx, w_max=wm, gap=gap)
+    add('gamma_fft', layout={'e|r1': [1, 2, 3, 4, 5, 6, 7, 8, 9, 10, 11, 12, 13, 14], 'e|r2': [3, 4, 5, 6, 7]}, fft=True)
     add('rename', layout=C, rename={'e|r1': 'e|rB', 'e|r2': 'e|rA'}, order=[1, 0], mode='s0')
     add('rename', layout=C, rename={'e|r1': 'e|rB', 'e|r2': 'e|rA'}, order=[1, 0], mode='kw')
     add('rename', layout=C, rename={'e|r1': 'q|x', 'e|r2': 'q|y'}, order=[0, 1], mode='std')
